@@ -424,6 +424,9 @@ func exemptZone(s encSpec, d []byte, pos int, x byte) string {
 			if off == 10 || off == 11 {
 				return "pkesk-mpi-bitcount"
 			}
+			if off == 9 && (d[pos] == 1 || d[pos] == 2) && (d[pos]^x == 1 || d[pos]^x == 2) {
+				return "pkesk-rsa-algorithm-alias" // 1 (RSA) and 2 (RSA encrypt-only) are the same algorithm to the reader
+			}
 			if len(d) > p.bodyStart+9 && d[p.bodyStart+9] == 16 && off >= 12 { // ElGamal: second MPI header
 				n1 := (int(d[p.bodyStart+10])<<8 | int(d[p.bodyStart+11]) + 7) / 8
 				if off == 12+n1 || off == 13+n1 {
@@ -979,7 +982,14 @@ func gen(g *hx.Gen) {
 			case 1:
 				g.Emit("gpg dir=gpg2go-sym cipher=%d comp=%d n=%d seed=%d", cipher, comp, nn, r.U64()>>1)
 			default:
-				g.Emit("gpg dir=go2gpg-sign mode=sign rcpt=- nrcpt=0 signer=%d signed=1 cipher=7 bs=16 comp=0 hash=%d bin=1 name=- namelen=0 ch=%s n=%d seed=%d", r.PickInt(1, 17, 19), r.PickInt(8, 2, 10), hx.JoinInts(chunking(r, nn)), nn, r.U64()>>1)
+				// GnuPG refuses ECDSA P-256 signatures over a digest shorter than 256 bits (its policy, FIPS 186-4):
+				// the ECDSA interop cases use SHA-256/512 only
+				signer := r.PickInt(1, 17, 19)
+				hashID := r.PickInt(8, 2, 10)
+				if signer == 19 && hashID == 2 {
+					hashID = 8
+				}
+				g.Emit("gpg dir=go2gpg-sign mode=sign rcpt=- nrcpt=0 signer=%d signed=1 cipher=7 bs=16 comp=0 hash=%d bin=1 name=- namelen=0 ch=%s n=%d seed=%d", signer, hashID, hx.JoinInts(chunking(r, nn)), nn, r.U64()>>1)
 			}
 		}
 	}
